@@ -467,10 +467,13 @@ impl<M: Manager, W: From<Object<M>>> Pool<M, W> {
      * always reports a `max_size` of 0 for closed pools.
      */
     pub fn resize(&self, max_size: usize) {
+        let mut slots = self.inner.slots.lock().unwrap();
+        // This check needs to happen while holding the lock. Otherwise a
+        // concurrent `close()` could finish between the check and the update
+        // and the closed pool would end up with a non-zero `max_size`.
         if self.inner.semaphore.is_closed() {
             return;
         }
-        let mut slots = self.inner.slots.lock().unwrap();
         let old_max_size = slots.max_size;
         slots.max_size = max_size;
         // shrink pool
@@ -569,6 +572,9 @@ impl<M: Manager, W: From<Object<M>>> Pool<M, W> {
         // shrink could not release it. Nothing can take it out of the queue
         // anymore, so release whatever is left.
         let mut slots = self.inner.slots.lock().unwrap();
+        // A `resize()` running concurrently with the `resize(0)` above can
+        // have raised the limit again before the semaphore was closed.
+        slots.max_size = 0;
         while let Some(mut obj) = slots.vec.pop_front() {
             slots.size -= 1;
             self.inner.manager.detach(&mut obj.obj);
